@@ -868,6 +868,9 @@ def run_collocate_case(ck, case, use_model):
             uP = [int(x) for x in parts[1].split()]
             uS = [int(x) for x in parts[2].split()]
             mp = [int(x) for x in parts[3].split()]
+            from typhon.utils import unique as ty_unique       # anchored helper: same first-occurrence order
+            if ty_unique([int(v) for v in op[0]]) != uP or ty_unique([int(v) for v in op[1]]) != uS:
+                ck.disagree(f"typhon.utils.unique {ty_unique([int(v) for v in op[0]])[:10]} vs model uniq {uP[:10]}", what_case)
             if [int(spy.xP[i]) for i in uP] != [int(v) for v in res["primary/x"].values] or \
                     [int(spy.xS[i]) for i in uS] != [int(v) for v in res["secondary/x"].values]:
                 ck.disagree(f"compact: stored points model {uP[:10]}/{uS[:10]} (indices) vs code ids "
@@ -950,6 +953,32 @@ def explore(ck, n_ds, n_inj, n_col, big, use_model=True):
         run_case(ck, gen_collocate_case(rng), use_model)
 
 
+def exhaustive_small(ck, use_model):
+    """every valid pair list (ordered, duplicates allowed) with up to 4 pairs over 1..2 x 1..2 stored
+    points and up to 3 pairs over 2 x 3 / 3 x 2 points, fixed data with a NaN; each also concatenated
+    with itself"""
+    import itertools
+    count = 0
+    for nP, nS, nmax in ((1, 1, 4), (1, 2, 4), (2, 1, 4), (2, 2, 4), (2, 3, 3), (3, 2, 3)):
+        edges = [(p, s) for p in range(nP) for s in range(nS)]
+        for n in range(1, nmax + 1):
+            for combo in itertools.product(edges, repeat=n):
+                if {p for p, _ in combo} != set(range(nP)) or {s for _, s in combo} != set(range(nS)):
+                    continue
+                g0, g1 = "primary", "secondary"
+                d = {"groups": [g0, g1], "pairs": [[p for p, _ in combo], [s for _, s in combo]], "n": {g0: nP, g1: nS},
+                     "style": "exhaustive", "t0": 0,
+                     "vars": {g0: {"x": {"dims": [f"{g0}/collocation"], "data": list(range(nP))},
+                                   "bt": {"dims": [f"{g0}/collocation", f"{g0}/channel"],
+                                          "data": [[2 * i + 1, None if i == 0 else -i] for i in range(nP)]}},
+                              g1: {"x": {"dims": [f"{g1}/collocation"], "data": [100000 + j for j in range(nS)]},
+                                   "bt": {"dims": [f"{g1}/collocation", f"{g1}/channel"],
+                                          "data": [[3 * j - 2, None if j == 1 else j * j] for j in range(nS)]}}}}
+                run_ds_case(ck, {"op": "ds", "list": [d, json.loads(json.dumps(d))], "alias": None, "collapser": n % 2 == 0}, use_model)
+                count += 1
+    return count
+
+
 def make_check():
     return vlib.Check(
         PROP, **PKG, lemma_files=LEMMAS, model_files=["Model/Compact.lean"],
@@ -988,6 +1017,11 @@ def main():
         ck.notes.append("driver not available: oracle only")
     for name, c in vlib.load_corpus(PROP):
         run_case(ck, c, use_model)
+    if ck.tier == "thorough":
+        k = exhaustive_small(ck, use_model)
+        ck.exhaustive = True
+        ck.notes.append(f"exhaustive: all {k} valid ordered pair lists with <= 4 pairs over <= 2x2 stored points and <= 3 pairs "
+                        "over 2x3 / 3x2 stored points (collapse both references, expand, concat with itself)")
     big = 0.04 if ck.tier == "quick" else 0.06
     explore(ck, ck.budget(130, 1800), ck.budget(50, 800), ck.budget(30, 400), big, use_model)
     if ck.broken() and not ck.violations:
